@@ -42,6 +42,9 @@ from .token import (
 
 IGNORED_CHARS = "\n\r\ufeff\t ,"
 
+# The grammar's Digit is ASCII only; ``str.isdigit`` is true for any Unicode digit.
+DIGITS = frozenset("0123456789")
+
 SYMBOLS = {
     cls.value: cls
     for cls in (
@@ -325,7 +328,7 @@ class Lexer:
             except IndexError:
                 pass
             else:
-                if char.isdigit():
+                if char in DIGITS:
                     raise UnexpectedCharacter(
                         'Unexpected character "%s"' % char,
                         self._position,
@@ -340,13 +343,13 @@ class Lexer:
         except IndexError:
             raise UnexpectedEOF(self._position, self._source)
 
-        if not (char.isdigit()):
+        if char not in DIGITS:
             raise UnexpectedCharacter(
                 'Unexpected character "%s"' % char, self._position, self._source
             )
 
         while True:
-            if char is not None and char.isdigit():
+            if char is not None and char in DIGITS:
                 self._position += 1
                 try:
                     char = self._source[self._position]
@@ -365,7 +368,7 @@ class Lexer:
             except IndexError:
                 break
 
-            if char == "_" or char in __ascii_letters or char.isdigit():
+            if char == "_" or char in __ascii_letters or char in DIGITS:
                 self._position += 1
             else:
                 break
@@ -415,7 +418,7 @@ class Lexer:
             return self._read_block_string()
         elif char == '"':
             return self._read_string()
-        elif char == "-" or char.isdigit():
+        elif char == "-" or char in DIGITS:
             return self._read_number()
         elif char == "_" or char in ascii_letters:
             return self._read_name()
